@@ -57,9 +57,23 @@ module_plan('C01', 600, 12000,
             "random decorated modules, doc-heavy profile (85% of items documented, hazard line alphabet, block indentation by "
             "spaces/tabs, leaderless blocks); non-trivial = at least one doccomment with a non-blank body line; distinct by case key; "
             "plus clean_doc_lines itself on canonical / near-canonical / arbitrary line lists", extra_run=_c01_extra)
+def _c02_extra(tier, seed, out, drv):
+    """the dispatch table of the model must be the set of process_* methods / include_undocumented_* options the code has NOW"""
+    import dataclasses
+    from impl import DocumentationAggregator
+    from cminx.config import InputSettings
+    real_procs = sorted(n[len('process_'):] for n in dir(DocumentationAggregator) if n.startswith('process_'))
+    real_flags = sorted(f.name[len('include_undocumented_'):] for f in dataclasses.fields(InputSettings) if f.name.startswith('include_undocumented_'))
+    mo = drv.run([dict(op='procs')])[0]
+    out.traces_validated += 1
+    if sorted(mo['procs']) != real_procs or sorted(mo['flagged']) != real_flags:
+        out.disagreements.append(dict(suite='dispatch-table', key='procs', detail=dict(kind='process_* methods / include flags', model=mo, real=dict(procs=real_procs, flagged=real_flags))))
+
+
 module_plan('C02', 800, 20000,
             "random decorated modules, structure-heavy profile (nesting <= 4, dangling doccomments, generic commands, blocks, 15% "
-            "malformed stream); non-trivial = >=3 undocumented and >=1 documented command")
+            "malformed stream); non-trivial = >=3 undocumented and >=1 documented command; plus the dispatch table (process_* methods, "
+            "include_undocumented_* fields) read off the code at run time", extra_run=_c02_extra)
 module_plan('C03', 800, 20000,
             "random decorated modules, kwargs profile (definitions, cmake_parse_arguments at all placements, random trigger strings "
             "and strip patterns incl. ones matching the name); non-trivial = a definition plus a cmake_parse_arguments call or trigger hit")
